@@ -189,7 +189,7 @@ func GenMotionSeq(r *rand.Rand, prof *gen.Profile, o ref.Opts, maxOps int, rootO
 	fresh := 0
 	for tries := 0; len(sc.Ops) < n && tries < 6*n; tries++ {
 		res, _ := gen.Pointers(e.Root)
-		pick := func() string {
+		pick0 := func() string {
 			if len(hot) > 0 && r.Intn(3) > 0 {
 				h := hot[r.Intn(len(hot))]
 				if valueAt(e, h) != nil {
@@ -197,6 +197,20 @@ func GenMotionSeq(r *rand.Rand, prof *gen.Profile, o ref.Opts, maxOps int, rootO
 				}
 			}
 			return res[r.Intn(len(res))]
+		}
+		pick := func() string {
+			// an array element may be named from the end: index i of n elements is i-n
+			pt := pick0()
+			if o.NegIdx && r.Intn(4) == 0 {
+				if i := strings.LastIndex(pt, "/"); i >= 0 {
+					if par := valueAt(e, pt[:i]); par != nil && par.K == jr.Arr {
+						if n, err := strconv.Atoi(pt[i+1:]); err == nil && n < len(par.A) {
+							return pt[:i+1] + strconv.Itoa(n-len(par.A))
+						}
+					}
+				}
+			}
+			return pt
 		}
 		beneath := func(t string) string {
 			// a location below t if t is a container, t itself otherwise
